@@ -9,3 +9,8 @@ pub mod prng;
 pub mod registry;
 pub mod residue;
 pub mod world;
+
+/// The aarch64 intrinsic model (used in generated aarch64 shadows); linked here so that
+/// `sim-native selftest-model` can cross-check it against the host's AES-NI instructions.
+#[path = "../models/verif_neon_model.rs"]
+pub mod verif_neon_model;
